@@ -20,7 +20,8 @@ if [ $ok = 1 ]; then
   echo "tests with change: $t"
   case "$t" in "99 passed 0 failed") ;; *) echo "TESTS DO NOT PASS"; ok=0;; esac
 fi
-demo=$(ls "$src"/SEED/demo.* 2>/dev/null | head -1)
+demo=$(ls "$src"/SEED/demo.sh 2>/dev/null | head -1)
+[ -n "$demo" ] || demo=$(ls "$src"/SEED/demo.* 2>/dev/null | head -1)
 if [ $ok = 1 ] && [ -n "$demo" ] && [[ "$demo" == *.nl ]]; then
   with=$(timeout 60 target/debug/nederlang "$demo" 2>&1 | head -40)
   git apply -R "$src/SEED/patch.diff"; cargo build --offline -q 2>/dev/null
